@@ -531,6 +531,9 @@ def rgb_to_hsl(rgb_color):
         s = 0
     else:
         s = diff / (1 - abs(2 * l - 1))
+        # Saturation is mathematically <= 1; floating-point rounding can push it
+        # marginally above (e.g. 1.0000000000000004), which hsl_to_rgb rejects.
+        s = min(s, 1.0)
 
         if mx == r:
             h = (g - b) / diff % 6
